@@ -104,6 +104,47 @@ def _ac_policy(space):
     return MLPActorCriticPolicy(E, feature_size=2, feature_width=2, feature_depth=1, value_width=2, value_depth=1, action_width=2, action_depth=1, key=jax.random.key(0))
 
 
+def _memo(f):
+    memo = {}
+
+    def g(model):
+        if "r" not in memo:
+            memo["r"] = f(model)
+        return memo["r"]
+    return g
+
+
+def native_masked_policy_replay(space):
+    """R1: a real MLPActorCriticPolicy on this action space, every valid mask, key-less (greedy), sampled (8 keys) and action_and_value: the action never uses a masked entry."""
+    def replay(model):
+        pol = _ac_policy(space)
+        obs = jnp.asarray([0.3, -0.7], f32)
+        if isinstance(space, Discrete):
+            n = int(space.n)
+            masks = [m for m in itertools.product([False, True], repeat=n) if any(m)]
+            allowed = lambda a, m: bool(m[int(a)])
+        elif isinstance(space, MultiDiscrete):
+            nv = [int(v) for v in np.asarray(space.nvec)]
+            offs = np.concatenate([[0], np.cumsum(nv)])
+            masks = [m for m in itertools.product([False, True], repeat=int(sum(nv))) if all(any(m[offs[i]:offs[i + 1]]) for i in range(len(nv)))]
+            allowed = lambda a, m: all(bool(m[offs[i] + int(np.asarray(a)[i])]) for i in range(len(nv)))
+        else:
+            n = int(np.prod(space.shape))
+            masks = list(itertools.product([False, True], repeat=n))
+            allowed = lambda a, m: all((not int(x)) or bool(mm) for x, mm in zip(np.asarray(a).reshape(-1), m))
+        for m in masks:
+            mm = jnp.asarray(m).reshape(space.shape) if isinstance(space, MultiBinary) else jnp.asarray(m)
+            acts = [("greedy", pol(None, obs, action_mask=mm)[1])]
+            for s in range(8):
+                acts.append((f"sample(key={s})", pol(None, obs, key=jax.random.key(s), action_mask=mm)[1]))
+                acts.append((f"action_and_value(key={s})", pol.action_and_value(None, obs, key=jax.random.key(s), action_mask=mm)[1]))
+            for how, a in acts:
+                if not allowed(a, m):
+                    return dict(reproduced=True, route="R1 (real MLPActorCriticPolicy)", inputs=dict(action_space=str(space), mask=list(m), mode=how), observed=dict(action=np.asarray(a).tolist()))
+        return dict(reproduced=False, note=f"{len(masks)} masks x (greedy, 8 sampled, 8 action_and_value): no masked entry is ever used")
+    return replay
+
+
 def unit_actor_critic(S):
     """MLPActorCriticPolicy: the law used by __call__, action_and_value and evaluate_action is head(features).mask(action_mask) - the same masked law in all three -
     and key None => mode, key => sample."""
@@ -161,8 +202,15 @@ def unit_actor_critic(S):
                     mk = mask.at((offs[comp] + j,)) if len(mshape) == 1 and mshape[0] == offs[-1] else mask.at((j,))
                     conj.append(ir.seq(lgop.at((j,)), z3.If(mk, r_.at((j,)), -ir.INF)))
             return sand(*conj)
+        # the property speaks about masks with at least one allowed action: per component for (multi-)discrete actions; every multi-binary mask qualifies (a masked bit stays 0)
+        valid = []
+        if sname.startswith("Discrete"):
+            valid = [z3.Or(*[mask.at((j,)) for j in range(mshape[0])])]
+        elif sname.startswith("MultiDiscrete"):
+            valid = [z3.Or(*[mask.at((offs[ci] + j,)) for j in range(raw[ci].shape[0])]) for ci in range(len(raw))]
+        rp = _memo(native_masked_policy_replay(space))
         for nm, cs in (("__call__[greedy]", c_greedy), ("__call__[sample]", c_sample), ("action_and_value", c_aav), ("evaluate_action", [c for c in c_eval if c.name.endswith(".log_prob")])):
-            S.prove(f"{sname}/{nm}-uses-the-masked-law", ctx, masked_goal(cs), function=fn, what=f"{nm}: the law's logits are the head's logits where allowed and -inf where masked: "
+            S.prove(f"{sname}/{nm}-uses-the-masked-law", ctx, masked_goal(cs), hyps=valid, function=fn, replay=rp, what=f"{nm}: the law's logits are the head's logits where allowed and -inf where masked: "
                                                                                                    "the SAME masked law for sampling, the mode and the reported log-probability")
 
 
